@@ -2,8 +2,9 @@
 """Regression of the checks against the kept seeded changes: for every seeded/<id>/ the patch is applied to a scratch
 worktree of /repo (never to /repo itself), the check(s) that detected it when it was ingested are run in an isolated copy
 of /verif against that worktree, and the result must again be exit 1 (VIOLATION).
-usage: seed_regress.py [--only C01a,C05c] [--out work/seed_regress.json]
-Scratch: /tmp/sv (worktree), /tmp/mut/verif (copy of /verif); both are removed by the caller when done."""
+usage: seed_regress.py [--only C01a,C05c] [--out work/seed_regress.json] [--shard i/n] [--sv /tmp/sv] [--mv /tmp/mut/verif]
+Scratch: /tmp/sv (worktree), /tmp/mut/verif (copy of /verif); both are removed by the caller when done. Several shards
+(each with its own --sv / --mv / --out) may run side by side."""
 import json, os, subprocess, sys, time
 
 VERIF = os.path.dirname(os.path.dirname(os.path.abspath(__file__)))
@@ -19,18 +20,22 @@ def main():
     args = sys.argv[1:]
     only = set(args[args.index("--only") + 1].split(",")) if "--only" in args else None
     out = args[args.index("--out") + 1] if "--out" in args else os.path.join(VERIF, "work", "seed_regress.json")
+    global SV, MV
+    SV = args[args.index("--sv") + 1] if "--sv" in args else SV
+    MV = args[args.index("--mv") + 1] if "--mv" in args else MV
+    shard_i, shard_n = (int(x) for x in args[args.index("--shard") + 1].split("/")) if "--shard" in args else (0, 1)
     if not os.path.isdir(SV):
         code, o = sh(f"git -C /repo worktree add --detach {SV} HEAD")
         if code != 0:
             print(o); sys.exit(2)
     sh("git checkout -q --detach $(git -C /repo rev-parse HEAD) && git checkout -q -- . && git clean -fdq -e target", cwd=SV)
-    os.makedirs("/tmp/mut", exist_ok=True)
+    os.makedirs(os.path.dirname(MV), exist_ok=True)
     sh(f"rsync -a --delete --exclude work --exclude harness/target --exclude replays --exclude .git {VERIF}/ {MV}/")
     sh(f"sed -i 's#path = \"/repo\"#path = \"{SV}\"#' {MV}/harness/Cargo.toml")
     results = {}
     names = sorted(d for d in os.listdir(os.path.join(VERIF, "seeded")) if os.path.isdir(os.path.join(VERIF, "seeded", d)))
-    for name in names:
-        if only and name not in only:
+    for pos, name in enumerate(names):
+        if (only and name not in only) or pos % shard_n != shard_i:
             continue
         d = os.path.join(VERIF, "seeded", name)
         meta = json.load(open(os.path.join(d, "meta.json")))
